@@ -257,16 +257,24 @@ def finish(mod, total: Result, tier, seed, wall, write_evidence=True):
         rc = 1
         rdir = os.path.join(VERIF, "replays", prop)
         os.makedirs(rdir, exist_ok=True)
-        seen = collections.Counter()
+        seen = set()
+        shown = 0
         for v in new_violations:
-            seen[v["key"]] += 1
-            safe = "".join(ch if ch.isalnum() or ch in "-_." else "_" for ch in v["key"])[:80]
-            path = os.path.join(rdir, "%s-%d.json" % (safe, seen[v["key"]]))
+            if v["key"] in seen:
+                continue
+            seen.add(v["key"])
+            if shown >= 25:
+                continue
+            shown += 1
+            safe = "".join(ch if ch.isalnum() or ch in "-_." else "_" for ch in v["key"])[:100]
+            path = os.path.join(rdir, "%s.json" % safe)
             with open(path, "w", encoding="utf8") as f:
                 json.dump({"property": prop, "key": v["key"], "message": v["message"],
                            "case": v["case"], "seed": seed, "tier": tier}, f, indent=1)
             lines.append("VIOLATION property=%s replay=%s" % (prop, path))
             lines.append("  key=%s %s" % (v["key"], v["message"][:600]))
+        if len(seen) > shown:
+            lines.append("  ... and %d more distinct violation mechanisms (see evidence new_violation_keys)" % (len(seen) - shown))
     elif total.inconclusive:
         rc = 2
         for r in total.inconclusive[:5]:
